@@ -386,9 +386,16 @@ func (c *child) runScenario() error {
 		sort.Strings(keys)
 		c.emit(Rec{T: "exposed", Tr: tr, List: keys})
 		var mods map[string]string
-		ctx, cancel := context.WithTimeout(context.Background(), 3*time.Second)
-		err := c.cli[tr].CallContext(ctx, &mods, "rpc_modules")
-		cancel()
+		var err error
+		for try := 0; try < 4; try++ { // a loaded box can make the HTTP server drop a request (its read/write timeouts)
+			ctx, cancel := context.WithTimeout(context.Background(), 5*time.Second)
+			err = c.cli[tr].CallContext(ctx, &mods, "rpc_modules")
+			cancel()
+			if err == nil {
+				break
+			}
+			time.Sleep(300 * time.Millisecond)
+		}
 		if err != nil {
 			c.emit(Rec{T: "note", Tr: tr, Msg: "rpc_modules failed: " + err.Error()})
 		}
@@ -724,7 +731,7 @@ func (c *child) doCall(key string, t target, v variant) {
 	c.lastKey = key
 	before := c.signCount()
 	cl := c.cli[t.tr]
-	tmo := 3 * time.Second
+	tmo := 30 * time.Second // nothing blocks legitimately; on a loaded box a slow call must not be cut off while the server still works on it
 	if t.cb.IsSub {
 		tmo = 700 * time.Millisecond // the HTTP client only learns at the deadline that notifications are unsupported
 	}
@@ -746,6 +753,18 @@ func (c *child) doCall(key string, t target, v variant) {
 	cancel()
 	if err != nil {
 		outcome = "err:" + errClass(err)
+	}
+	if outcome == "err:timeout" && !t.cb.IsSub {
+		// the server may still be executing the call: wait until the signing counter and the pool stop moving
+		last := c.signCount()
+		for i, stable := 0, 0; i < 100 && stable < 5; i++ {
+			time.Sleep(100 * time.Millisecond)
+			if n := c.signCount(); n == last {
+				stable++
+			} else {
+				stable, last = 0, n
+			}
+		}
 	}
 	if c.sc.Kind == "clique" {
 		time.Sleep(15 * time.Millisecond) // let a `go miner.Start` launched by the call run
@@ -839,7 +858,9 @@ func (c *child) evidence(raw json.RawMessage) string {
 		}
 		if len(b) > 65 {
 			tx := new(types.Transaction)
-			if rlp.DecodeBytes(b, tx) == nil {
+			// only a transaction nobody has seen before (not in the pool, not in a block): read-only methods return old ones
+			if rlp.DecodeBytes(b, tx) == nil && !c.seenTx[tx.Hash()] {
+				c.seenTx[tx.Hash()] = true
 				if from, err := types.Sender(signer, tx); err == nil && ksa[from] {
 					ev = append(ev, "rawtx")
 				}
